@@ -7,6 +7,7 @@
     message).  History theorems are over message lists of any length. *)
 From Coq Require Import NArith List Bool.
 From Tinode Require Import Sys.SessionAuth Sys.SessionGen Sys.SessionAuthProofs.
+From Tinode Require Import Sys.SenderC11x Sys.SenderC11xProofs.
 Import ListNotations.
 Local Open Scope N_scope.
 
@@ -242,3 +243,94 @@ Proof. vm_compute. auto. Qed.
 
 Example c11_ex_wf : Forall wf_msg (w_history ++ [w_login 1 LAuth]).
 Proof. exact w_history_wf. Qed.
+
+(** ** A client can never choose the author recorded on a message (Sys/SenderC11x.v)
+
+    Both places that write head.sender are modelled: site 1 in Session.publish (before the
+    route is chosen: attached topic, or 'sys' without a subscription) and site 2 in
+    Topic.saveAndBroadcastMessage.  For every session state (root or not), every extra
+    (on behalf or not), attached or not, every topic incl. 'sys', every supplied head and
+    every guard table: when the {pub} is stored / broadcast, [From] is the acting user
+    dispatch resolved, head.sender is ABSENT on the session's own message and the
+    session's REAL user on a message on behalf of another user - a function of the session
+    only, never the supplied value (unless it coincides) - every other header is kept,
+    and a non-root session always gets [From] = its own user and no sender header. *)
+Theorem c11_sender_always_servers_own : forall t st e q f h,
+  pub_c11x t st e q = inr (OStored f h) ->
+  (exists c, r_call (dispatch t st (pub_msg_c11x e q)) = Some c /\ f = c_user c) /\
+  head_get KSender h = servers_own_c11x (uid st) f /\
+  (head_get KSender h = None \/ (head_get KSender h = Some (uid st) /\ f <> uid st)) /\
+  (lvl st <> LRoot -> f = uid st /\ head_get KSender h = None) /\
+  (forall k, k <> KSender -> head_get k h = head_get k (q_head q)).
+Proof. exact pub_sender_c11x. Qed.
+Print Assumptions c11_sender_always_servers_own.
+
+(** The same for the bare flow (any session user / acting user pair). *)
+Theorem c11_sender_flow : forall suid au q f h, pub_flow_c11x suid au q = OStored f h ->
+  f = au /\ head_get KSender h = servers_own_c11x suid au /\
+  (forall k, k <> KSender -> head_get k h = head_get k (q_head q)).
+Proof. exact flow_sender_c11x. Qed.
+Print Assumptions c11_sender_flow.
+
+(** Which route relies on which site.  With each site switchable per route
+    ([pub_flow_cfg_c11x]; all on = the code as it is), the header is server-owned on every
+    input IFF every route is covered by at least one site: the attached route by site 1 in
+    the attached branch or by site 2, the unsubscribed 'sys' route by site 1 on that route
+    or by site 2.  Hence in the code as it is either site alone suffices (they are
+    redundant), ... *)
+Theorem c11_sender_sites_char : forall cfg, sender_ok_c11x cfg <-> covered_c11x cfg = true.
+Proof. intro cfg. split; [apply sender_ok_covered_c11x | apply covered_sender_ok_c11x]. Qed.
+Print Assumptions c11_sender_sites_char.
+
+Theorem c11_sender_head_is_all_sites : forall suid au q,
+  pub_flow_cfg_c11x sites_head_c11x suid au q = pub_flow_c11x suid au q.
+Proof. exact flow_cfg_head_c11x. Qed.
+Print Assumptions c11_sender_head_is_all_sites.
+
+Theorem c11_sender_site1_alone_suffices :
+  sender_ok_c11x {| s1_attached := true; s1_sys := true; s2 := false |}.
+Proof. apply covered_sender_ok_c11x. reflexivity. Qed.
+Print Assumptions c11_sender_site1_alone_suffices.
+
+Theorem c11_sender_site2_alone_suffices :
+  sender_ok_c11x {| s1_attached := false; s1_sys := false; s2 := true |}.
+Proof. apply covered_sender_ok_c11x. reflexivity. Qed.
+Print Assumptions c11_sender_site2_alone_suffices.
+
+(** ... while removing both, or keeping site 1 only inside the 'session is subscribed'
+    branch and removing site 2, is REFUTED: the supplied value survives (witness: own
+    message with head {"sender": 5}); the second variant stays correct exactly on the
+    attached route. *)
+Definition c11_sender_no_site_statement : Prop :=
+  sender_ok_c11x {| s1_attached := false; s1_sys := false; s2 := false |}.
+Theorem c11_sender_no_site_refuted : ~ c11_sender_no_site_statement.
+Proof. intro H. apply sender_ok_covered_c11x in H. discriminate H. Qed.
+Print Assumptions c11_sender_no_site_refuted.
+
+Definition c11_sender_site1_attached_only_statement : Prop :=
+  sender_ok_c11x {| s1_attached := true; s1_sys := false; s2 := false |}.
+Theorem c11_sender_site1_attached_only_refuted : ~ c11_sender_site1_attached_only_statement.
+Proof. intro H. apply sender_ok_covered_c11x in H. discriminate H. Qed.
+Print Assumptions c11_sender_site1_attached_only_refuted.
+
+Example c11_ex_sender_forged_on_sys :
+  pub_flow_cfg_c11x {| s1_attached := true; s1_sys := false; s2 := false |} 1 1 w_sys_c11x
+  = OStored 1 (Some [(KSender, 5)]).
+Proof. vm_compute. reflexivity. Qed.
+
+Theorem c11_sender_site1_attached_only_partial : forall suid au q f h, q_attached q = true ->
+  pub_flow_cfg_c11x {| s1_attached := true; s1_sys := false; s2 := false |} suid au q = OStored f h ->
+  f = au /\ head_get KSender h = servers_own_c11x suid au.
+Proof. exact attached_only_partial_c11x. Qed.
+Print Assumptions c11_sender_site1_attached_only_partial.
+
+(** Not vacuous: a forged header on the unsubscribed 'sys' route of a non-root session and
+    a root session publishing on behalf of user 2. *)
+Example c11_ex_sender_sys_scrubbed :
+  pub_c11x spec_table {| ver := 5632; uid := 1; lvl := LAuth |} no_extra w_sys_c11x = inr (OStored 1 None).
+Proof. vm_compute. reflexivity. Qed.
+
+Example c11_ex_sender_obo :
+  pub_c11x spec_table {| ver := 5632; uid := 6; lvl := LRoot |} {| ex_asuser := Some 2; ex_level := 0 |} w_sys_c11x
+  = inr (OStored 2 (Some [(KSender, 6)])).
+Proof. vm_compute. reflexivity. Qed.
